@@ -30,6 +30,7 @@ structure Ev where
   typ : Nat       -- `event->Num()` as an index into the host's event table
   due : Int       -- `node->time`
   flags : Nat     -- `node->flags`
+  ord : Nat       -- ghost: enqueue stamp, renewed each time the node is (re-)linked by `PostEvent` / `Postpone…`
   deriving DecidableEq, Repr, Inhabited
 
 /-- what host code (top level or a response running inside `ProcessPendingEvents`) can do -/
@@ -40,6 +41,8 @@ inductive Act
   | cancelFlag (l f : Nat)                     -- `l->CancelFlaggedEvents(f)`
   | destroy (l : Nat)                          -- `delete l`
   | tick (k : Nat)                             -- the clock advances by `k` ms
+  | postpone (l typ : Nat) (d : Nat)           -- `l->PostponeEvent(Event(typ), d)` (a non-negative amount)
+  | postponeAll (l : Nat) (d : Nat)            -- `l->PostponeAllEvents(d)`
   deriving DecidableEq, Repr
 
 inductive Op
@@ -47,6 +50,9 @@ inductive Op
   | newl (l : Nat)                             -- `new C08Host`
   | handler (l typ : Nat) (acts : List Act)    -- set the host's handler table entry
   | process                                    -- `EventContext::ProcessEvents()`
+  | processL (l : Nat)                         -- `l->ProcessPendingEvents()` (`EventQueue::ProcessPendingEvents(Listener*)`)
+  | clear                                      -- `GetEventQueue().ClearEventList()`
+  | saveLoad                                   -- `GetEventQueue().Archive(writer)` then `.Archive(reader)` on the same queue
   deriving DecidableEq, Repr
 
 /-- one call of a response from `ProcessPendingEvents` -/
@@ -55,6 +61,7 @@ structure Delivery where
   passT : Int          -- the `t` read once at the start of the pass
   clock : Nat          -- the clock when the response was entered
   rest : List Ev       -- ghost: what was still queued right after this node was unlinked
+  glob : Bool          -- `true`: delivered by `ProcessPendingEvents()`, `false`: by `ProcessPendingEvents(Listener*)`
   deriving Repr
 
 /-- everything that is not the queue itself -/
@@ -66,7 +73,10 @@ structure Host where
   handlers : List (Nat × Nat × List Act)        -- newest first
   log : List Delivery                           -- newest first
   cancelled : List Ev                           -- ghost, newest first
-  posted : List Ev                              -- ghost: every event that was put in the queue, newest first
+  posted : List Ev                              -- ghost: every version of every event that was put in the queue, newest first
+  nextOrd : Nat                                 -- ghost: next enqueue stamp
+  postponed : List Ev                           -- ghost: versions superseded by a postponement, newest first
+  ub : Bool                                     -- the real code has executed undefined behaviour (null dereference in `Insert`, use of an unset `node->event`)
 
 structure MState (Q : Type) where
   q : Q
@@ -83,6 +93,12 @@ structure QImpl (Q : Type) where
   popDue : Q → Int → Option (Ev × Q)           -- one iteration of `ProcessPendingEvents` up to `Node.Remove(node)`
   isPending : Q → (Ev → Bool) → Bool           -- `IsEventPending`
   toList : Q → List Ev                         -- queue order, as `GetNumPendingEvents` walks it
+  /-- `PostponeEvent / PostponeAllEvents` with the match predicate, the amount and the ghost stamp;
+      `none` = undefined behaviour; second component: the superseded and the new version, when a node matched -/
+  postpone : Q → (Ev → Bool) → Int → Nat → Option (Q × Option (Ev × Ev))
+  popDueOf : Q → Nat → Int → Option (Ev × Q)   -- one iteration of `ProcessPendingEvents(Listener*)` up to `Node.Remove`
+  clear : Q → Q × List Ev                      -- `ClearEventList`; second component: the deleted nodes (ghost)
+  load : Q → List Ev → Option Q                -- `Archive` (loading) of the records `Archive` (saving) wrote; `none` = UB
 
 namespace Machine
 variable {Q : Type} (I : QImpl Q)
@@ -95,6 +111,14 @@ def matchType (l typ : Nat) (e : Ev) : Bool := e.lis == l && e.typ == typ
 def matchAll (l : Nat) (e : Ev) : Bool := e.lis == l
 def matchFlag (l f : Nat) (e : Ev) : Bool := e.lis == l && (e.flags &&& f) != 0
 
+/-- `PostponeEvent` / `PostponeAllEvents`: the first matching node gets `time += d` and is re-linked -/
+def postponeBy (s : MState Q) (p : Ev → Bool) (d : Nat) : MState Q :=
+  match I.postpone s.q p (d : Int) s.h.nextOrd with
+  | none => { s with h := { s.h with ub := true } }
+  | some (q', none) => { s with q := q' }
+  | some (q', some (e, e')) =>
+    { q := q', h := { s.h with nextOrd := s.h.nextOrd + 1, postponed := e :: s.h.postponed, posted := e' :: s.h.posted } }
+
 /-- One host action.  `re = true` when it runs inside a response: the action is skipped when its
     listener is gone, and a post is skipped when the budget is used up. -/
 def applyAct (re : Bool) (s : MState Q) : Act → MState Q
@@ -103,12 +127,13 @@ def applyAct (re : Bool) (s : MState Q) : Act → MState Q
     if l ∉ s.h.alive then s
     else if re = true ∧ s.h.budget = 0 then s
     else
-      let h1 : Host := { s.h with budget := if re then s.h.budget - 1 else s.h.budget, nextId := s.h.nextId + 1 }
+      let h1 : Host := { s.h with budget := if re then s.h.budget - 1 else s.h.budget, nextId := s.h.nextId + 1,
+                                  nextOrd := s.h.nextOrd + 1 }
       -- Listener::PostEventInternal: `if (!ev->Num() || !classinfo().GetResponse(ev->Num())) { delete ev; return; }`
       if typ = 0 ∨ hasResponse typ = false then { s with h := h1 }
       else
         -- EventQueue::PostEvent: `time = GetTime() + delay`
-        let e : Ev := ⟨s.h.nextId, l, typ, (s.h.now : Int) + d, f⟩
+        let e : Ev := ⟨s.h.nextId, l, typ, (s.h.now : Int) + d, f, s.h.nextOrd⟩
         { q := I.post s.q e, h := { h1 with posted := e :: h1.posted } }
   | .cancelType l typ => if l ∉ s.h.alive then s else cancelBy I s (matchType l typ)
   | .cancelAll l => if l ∉ s.h.alive then s else cancelBy I s (matchAll l)
@@ -119,6 +144,8 @@ def applyAct (re : Bool) (s : MState Q) : Act → MState Q
       -- Listener::~Listener: `CancelPendingEvents();`
       let s1 := cancelBy I s (matchAll l)
       { s1 with h := { s1.h with alive := s1.h.alive.filter (· != l) } }
+  | .postpone l typ d => if l ∉ s.h.alive then s else postponeBy I s (matchType l typ) d
+  | .postponeAll l d => if l ∉ s.h.alive then s else postponeBy I s (matchAll l) d
 
 def lookup (hs : List (Nat × Nat × List Act)) (l t : Nat) : List Act :=
   match hs.find? (fun x => x.1 == l && x.2.1 == t) with
@@ -137,17 +164,43 @@ def processLoop : Nat → Int → MState Q → MState Q
     match I.popDue s.q t with
     | none => s
     | some (e, q') =>
-      let s1 : MState Q := { q := q', h := { s.h with log := ⟨e, t, s.h.now, I.toList q'⟩ :: s.h.log } }
+      let s1 : MState Q := { q := q', h := { s.h with log := ⟨e, t, s.h.now, I.toList q', true⟩ :: s.h.log } }
       processLoop fuel t (runHandler I s1 e)
+
+/-- `EventQueue::ProcessPendingEvents(Listener* l)`: `t` read once; each iteration walks from the root to
+    the first node of `l` that is not behind a node with `time > t`, unlinks it, calls the response and
+    starts over from the root. -/
+def processLoopL (l : Nat) : Nat → Int → MState Q → MState Q
+  | 0, _, s => s
+  | fuel + 1, t, s =>
+    match I.popDueOf s.q l t with
+    | none => s
+    | some (e, q') =>
+      let s1 : MState Q := { q := q', h := { s.h with log := ⟨e, t, s.h.now, I.toList q', false⟩ :: s.h.log } }
+      processLoopL l fuel t (runHandler I s1 e)
 
 /-- every iteration removes one node and every node added inside a response costs one unit of budget -/
 def passFuel (s : MState Q) : Nat := (I.toList s.q).length + s.h.budget + 1
 
 def process (s : MState Q) : MState Q := processLoop I (passFuel I s) (s.h.now : Int) s
+def processL (l : Nat) (s : MState Q) : MState Q := processLoopL I l (passFuel I s) (s.h.now : Int) s
+
+/-- `ClearEventList`: every node and its `Event` are deleted (ghost: they count as cancelled) -/
+def clearAll (s : MState Q) : MState Q :=
+  let r := I.clear s.q
+  { q := r.1, h := { s.h with cancelled := r.2 ++ s.h.cancelled } }
+
+/-- `Archive` saving writes one record per node in link order; `Archive` loading clears the list and
+    appends one node per record -/
+def saveLoad (s : MState Q) : MState Q :=
+  match I.load s.q (I.toList s.q) with
+  | none => { s with h := { s.h with ub := true } }
+  | some q' => { s with q := q' }
 
 def Act.legalTop (h : Host) : Act → Bool
   | .tick _ => true
-  | .post l _ _ _ | .cancelType l _ | .cancelAll l | .cancelFlag l _ | .destroy l => decide (l ∈ h.alive)
+  | .post l _ _ _ | .cancelType l _ | .cancelAll l | .cancelFlag l _ | .destroy l
+  | .postpone l _ _ | .postponeAll l _ => decide (l ∈ h.alive)
 
 /-- one top-level host operation; `none` = not a legal program (using a destroyed listener) -/
 def step (s : MState Q) : Op → Option (MState Q)
@@ -155,13 +208,17 @@ def step (s : MState Q) : Op → Option (MState Q)
   | .newl l => if l ≠ 0 ∧ l ∉ s.h.alive then some { s with h := { s.h with alive := l :: s.h.alive } } else none
   | .handler l t acts => some { s with h := { s.h with handlers := (l, t, acts) :: s.h.handlers } }
   | .process => some (process I s)
+  | .processL l => if l ∈ s.h.alive then some (processL I l s) else none
+  | .clear => some (clearAll I s)
+  | .saveLoad => some (saveLoad I s)
 
+/-- a state in which undefined behaviour has happened has no successor -/
 def run : MState Q → List Op → Option (MState Q)
   | s, [] => some s
-  | s, op :: ops => (step I s op).bind (run · ops)
+  | s, op :: ops => if s.h.ub = true then none else (step I s op).bind (run · ops)
 
 def init (budget : Nat) : MState Q :=
-  { q := I.empty, h := ⟨[], 0, budget, 1, [], [], [], []⟩ }
+  { q := I.empty, h := ⟨[], 0, budget, 1, [], [], [], [], 1, [], false⟩ }
 
 end Machine
 
@@ -295,7 +352,85 @@ def walk : Nat → (Nat → Nat) → Nat → List Nat
 def ids (q : LQ) : List Nat := walk q.cnt q.nx.get q.root
 def toList (q : LQ) : List Ev := (ids q).map q.data.get
 
-def impl : QImpl LQ := ⟨empty, post, cancel, popDue, isPending, toList⟩
+/-- the outer loops of `PostponeEvent / PostponeAllEvents`: first node from `i` that matches -/
+def findFirst : Nat → LQ → (Ev → Bool) → Nat → Nat
+  | 0, _, _, _ => 0
+  | fuel + 1, q, p, i =>
+    if i = 0 then 0
+    else if p (q.data.get i) then i
+    else findFirst fuel q p (q.nx.get i)
+
+/-- `EventQueue::PostponeEvent` / `PostponeAllEvents` (they differ in the match only).
+    `relinks = false` is the code with the single `Node.Insert(node, event)`;
+    `relinks = true` the repaired code that chooses `Add / AddFirst / Insert` (notes/C08-suggested-fix-1.diff). -/
+def postpone (relinks : Bool) (q0 : LQ) (p : Ev → Bool) (d : Int) (ord : Nat) : Option (LQ × Option (Ev × Ev)) :=
+  let ev := findFirst q0.cnt q0 p q0.root
+  if ev = 0 then some (q0, none)       -- `return false`
+  else
+    let e := q0.data.get ev
+    let e' : Ev := { e with due := e.due + d, ord := ord }
+    -- event->time += time
+    let q : LQ := { q0 with data := q0.data.set ev e' }
+    -- for (node = event.Next(); node; node = node.Next()) { if (event->time < node->time) break; }
+    let node := scan q.cnt q e'.due (q.nx.get ev)
+    -- Node.Remove(event)
+    let q1 := remove q ev
+    if relinks then
+      if node = 0 then some (add q1 ev, some (e, e'))
+      else if node = q1.root then some (addFirst q1 ev, some (e, e'))
+      else some (insert q1 node ev, some (e, e'))
+    else
+      -- Node.Insert(node, event) starts with `newnode->prev = currentnode->prev`: null dereference
+      if node = 0 then none
+      else some (insert q1 node ev, some (e, e'))
+
+/-- the walk of `ProcessPendingEvents(Listener* l)`: `while (event) { if (event->time > t) break;
+    if (obj != l) event = event.Next(); else <process event> }`; result: the node to process, or 0 -/
+def findDueOf : Nat → LQ → Nat → Int → Nat → Nat
+  | 0, _, _, _, _ => 0
+  | fuel + 1, q, l, t, i =>
+    if i = 0 then 0
+    else if (q.data.get i).due > t then 0
+    else if (q.data.get i).lis ≠ l then findDueOf fuel q l t (q.nx.get i)
+    else i
+
+def popDueOf (q : LQ) (l : Nat) (t : Int) : Option (Ev × LQ) :=
+  let n := findDueOf q.cnt q l t q.root
+  if n = 0 then none else some (q.data.get n, remove q n)
+
+/-- `ClearEventList`: the loop deletes every node and its event (ghost: in walk order, newest first in
+    the ledger), then `Node.Reset()` -/
+def clear (q : LQ) : LQ × List Ev :=
+  ({ q with root := 0, tail := 0, cnt := 0 }, (toList q).reverse)
+
+/-- `Archive`, loading: `ClearEventList()`, then per record `new EventQueueNode`, the fields, `Node.Add(node)`.
+    `setsEvent = false` is the code that never stores the `Event` it read in `node->event`: every node
+    it creates carries an indeterminate pointer, which nothing can use; the model stops there. -/
+def load (setsEvent : Bool) (q : LQ) (recs : List Ev) : Option LQ :=
+  let q0 := (clear q).1
+  if setsEvent = false ∧ recs ≠ [] then none
+  else some (recs.foldl (fun q e => add { q with data := q.data.set e.id e } e.id) q0)
+
+end LQ
+
+/-- what the translator reads from `EventQueue.cpp` (`lean/MorfuseModel/Gen/EventQueueCfg.lean`) -/
+structure Cfg where
+  /-- `Postpone…` re-links the moved node by `Add / AddFirst / Insert` depending on where it goes -/
+  postponeRelinks : Bool
+  /-- the loading branch of `Archive` stores the event it read in `node->event` -/
+  loadSetsEvent : Bool
+  deriving DecidableEq, Repr
+
+def Cfg.repaired : Cfg := ⟨true, true⟩
+def Cfg.original : Cfg := ⟨false, false⟩
+
+namespace LQ
+
+def implC (c : Cfg) : QImpl LQ :=
+  ⟨empty, post, cancel, popDue, isPending, toList, postpone c.postponeRelinks, popDueOf, clear, load c.loadSetsEvent⟩
+
+/-- the repaired configuration: what the theorems of `Props/C08.lean` are about -/
+def impl : QImpl LQ := implC Cfg.repaired
 
 end LQ
 
@@ -305,11 +440,15 @@ abbrev State := MState LQ
 def init (budget : Nat) : State := Machine.init LQ.impl budget
 def step (s : State) (op : Op) : Option State := Machine.step LQ.impl s op
 def run (s : State) (ops : List Op) : Option State := Machine.run LQ.impl s ops
+def stepC (c : Cfg) (s : State) (op : Op) : Option State := Machine.step (LQ.implC c) s op
+def runC (c : Cfg) (s : State) (ops : List Op) : Option State := Machine.run (LQ.implC c) s ops
 def pending (s : State) : List Ev := LQ.toList s.q
 def isPending (s : State) (l typ : Nat) : Bool := LQ.isPending s.q (Machine.matchType l typ)
 /-- delivered events, oldest first -/
 def delivered (s : State) : List Ev := (s.h.log.map (·.ev)).reverse
 
 def Reachable (s : State) : Prop := ∃ b ops, run (init b) ops = some s
+/-- reachable by the model of the code in configuration `c` -/
+def ReachableC (c : Cfg) (s : State) : Prop := ∃ b ops, runC c (init b) ops = some s
 
 end Morfuse.EventQueue
